@@ -17,7 +17,6 @@ package resolver
 //@   safety
 //@   modifies nothing
 //@   requires doc != nil
-//@   loop 1 invariant true
 
 // ---- C18: routing and chaining ----
 
